@@ -18,6 +18,9 @@ var round2Docs = map[string]map[string]string{
 	"C24": {"C24.R5": "pairing: popped stream-expiry item ⇔ index entry", "C24.R6": "pairing: state entry delete ⇒ deadline record delete"},
 	"C15": {"C15.R6": "error discipline: a child's validation error is returned before the next child"},
 	"C14": {"C14.R6": "K2: the medium's delta base does not depend on the publication's delta flag"},
+	"C04": {"C04.R8": "K2: an asynchronous callback changes a hub routing entry only for the subscription generation it was started for"},
+	"C09": {"C09.R5": "K4 who-may-write: the outstanding-ping marker (sign of Client.lastPing)"},
+	"C01": {"C01.R7": "K1: a publication that reveals a gap never advances the stored position"},
 	"C19": {"C19.R4": "Lua pairing: version field and version-epoch field are read, written and deleted together", "C19.R5": "Lua pairing: a script that consults the idempotency result key also stores and expires it"},
 	"C18": {"C18.R4": "Lua: the history add scripts expire the data key they append to"},
 	"C21": {"C21.R6": "sibling agreement: a channel created without its ordering flag is upgraded by the publish path"},
@@ -72,6 +75,12 @@ func hookRound2(c *Ctx, prop string) {
 		runBaseFollowsEveryPublication(c)
 	case "C16":
 		runPreparedDataComplete(c)
+	case "C04":
+		runAsyncRoutingWriteGenMatched(c)
+	case "C09":
+		runPingMarkerWriters(c)
+	case "C01":
+		runGapKeepsPosition(c)
 	case "C19":
 		runLuaPairs(c)
 	case "C18":
@@ -98,6 +107,122 @@ func hookRound2(c *Ctx, prop string) {
 		runResolverOnlyThroughValidate(c)
 	case "C02":
 		runPositionPair(c)
+	}
+}
+
+// runAsyncRoutingWriteGenMatched (C04.R8): handlers answer asynchronously; between the request and the
+// answer the channel may have been unsubscribed and subscribed again (a new generation). A callback
+// that rewrites the connection's routing entry in the hub (its server tags filter) must do so only
+// under the same generation test that guards its write to c.channels — otherwise a stale answer
+// re-filters a fresh subscription, which then silently misses publications.
+func runAsyncRoutingWriteGenMatched(c *Ctx) {
+	w := c.W
+	n := 0
+	for _, f := range w.AllFuncs {
+		if !w.inModule(f) || f.Parent() == nil || strings.HasSuffix(w.Pos(f.Pos()), "_test.go") {
+			continue // closures (callbacks) only
+		}
+		for _, ci := range CallsIn(f, false, w.calleeIs("Hub.updateServerTagsFilter")) {
+			n++
+			c.Check("C04.R8", ci, "asynchronous routing-entry update guarded by the subscription generation", Guarded(ci, isGenEq),
+				"the callback may answer after an unsubscribe + resubscribe: without the generation test a stale answer installs its filter on the new subscription's hub entry (guards: "+strings.Join(GuardStrings(ci), " && ")+")")
+		}
+	}
+	c.Anchor("C04.R8", "hub routing-entry updates from asynchronous callbacks", n >= 1)
+}
+
+// runPingMarkerWriters (C09.R5): the sign of Client.lastPing says whether a ping is outstanding: the ping
+// sender stores a positive clock reading, and the pong handler — only on the branch where the value is
+// positive — negates it; a pong while it is ≤ 0 is a protocol violation. Nothing else may write the
+// field: a checker that "normalises" it re-arms the marker, and an unsolicited pong is then accepted.
+func runPingMarkerWriters(c *Ctx) {
+	w := c.W
+	n := 0
+	for _, st := range w.FieldStores("Client", "lastPing") {
+		f := st.Parent()
+		if strings.HasSuffix(w.Pos(f.Pos()), "_test.go") {
+			continue
+		}
+		n++
+		d := D(st.Val)
+		switch {
+		case strings.Contains(d, "UnixNano(") || strings.Contains(d, "Now("):
+			c.Check("C09.R5", st, "ping marker armed with a clock reading by the ping sender", true, "")
+		default:
+			// negation of the current value, on the positive branch
+			neg := false
+			if u, ok := st.Val.(*ssa.UnOp); ok && u.Op == token.SUB && loadsField(u.X, "Client", "lastPing") {
+				neg = true
+			}
+			if b, ok := st.Val.(*ssa.BinOp); ok && b.Op == token.SUB && loadsField(b.Y, "Client", "lastPing") {
+				if z, isZ := constIntOf(b.X); isZ && z == 0 {
+					neg = true
+				}
+			}
+			positive := Guarded(st, func(g Guard) bool {
+				b, ok := g.Cond.(*ssa.BinOp)
+				if !ok || !loadsField(b.X, "Client", "lastPing") {
+					return false
+				}
+				z, isZ := constIntOf(b.Y)
+				return isZ && z == 0 && ((b.Op == token.LEQ && !g.Pol) || (b.Op == token.GTR && g.Pol))
+			})
+			c.Check("C09.R5", st, "ping marker changed only by negating a positive value (the pong handler)", neg && positive,
+				"value "+d+" in "+shortFuncName(f)+": any other write can turn an answered ping back into an outstanding one, so a second pong without a ping is accepted instead of closing the connection")
+		}
+	}
+	c.Anchor("C09.R5", "writers of Client.lastPing", n >= 2)
+}
+
+// runGapKeepsPosition (C01.R7): the insufficient-state signal is asynchronous, so between the detection
+// of a gap (lag, epoch mismatch, offset jump) and the unsubscribe that follows more publications arrive.
+// They are withheld only because the stored position still shows the gap: the branches that start
+// handleInsufficientState must neither follow nor precede a store of the position offset.
+func runGapKeepsPosition(c *Ctx) {
+	w := c.W
+	fn := w.Func("centrifuge", "(*Client).writePublicationUpdatePosition")
+	if fn == nil {
+		return
+	}
+	var gaps []ssa.Instruction
+	EachInstr(fn, func(in ssa.Instruction) {
+		g, ok := in.(*ssa.Go)
+		if !ok {
+			return
+		}
+		if closureLeads(w, g.Call.Value, func(x ssa.Instruction) bool {
+			ci := asCall(x)
+			return ci != nil && w.calleeIs("Client.handleInsufficientState")(ci)
+		}) {
+			gaps = append(gaps, in)
+		}
+	})
+	var offStores []*ssa.Store
+	EachInstr(fn, func(in ssa.Instruction) {
+		st, ok := in.(*ssa.Store)
+		if !ok {
+			return
+		}
+		fa, ok := st.Addr.(*ssa.FieldAddr)
+		if !ok || !fieldAddrIs(fa, "StreamPosition", "Offset") {
+			return
+		}
+		if strings.Contains(D(fa.X), "streamPosition") {
+			offStores = append(offStores, st)
+		}
+	})
+	if !c.Anchor("C01.R7", "insufficient-state branches of writePublicationUpdatePosition", len(gaps) >= 2) || !c.Anchor("C01.R7", "position offset store in writePublicationUpdatePosition", len(offStores) >= 1) {
+		return
+	}
+	for _, g := range gaps {
+		var bad ssa.Instruction
+		for _, st := range offStores {
+			if Reaches(st, g) || Reaches(g, st) {
+				bad = st
+			}
+		}
+		c.Check("C01.R7", g, "a gap-revealing publication leaves the stored position offset untouched", bad == nil,
+			"with the position moved to the offset the gap was seen at, the next publication of the burst equals position+1 and is delivered before the asynchronous unsubscribe lands: the client sees 1, 2, 5, 6 and only then the insufficient-state signal"+instrAt(w, bad))
 	}
 }
 
